@@ -129,3 +129,26 @@ PROPS["C18"] = {
     "level_note": "Trusted: Lean kernel, axioms propext/Quot.sound (Classical.choice where simp uses it); harness, line protocol, driver "
                   "glue; correspondence is sampled. Deviations of /repo from its own format are reported by the check (see findings).",
 }
+
+def _ctc_nontrivial(line, verdict):
+    return "feasible-kept" in verdict or verdict.startswith("ok contract") or "same-as-model" in verdict or "wider-than-model" in verdict or "emptied" in verdict
+
+PROPS["C04"] = {
+    "modules": ["IbexProofs.Props.C04"],
+    "harnesses": ["h_ctc"],
+    "workloads": lambda tier, seed: [
+        {"harness": "h_ctc", "tag": "ctc", "args": ["c04", seed, 250 if tier == "quick" else 8000]},
+    ],
+    "nontrivial": _ctc_nontrivial,
+    "rule": "random constraints with a planted feasible point: scalar DAGs (f(x) in K, K thin/thick/half-bounded) contracted by CtcFwdBwd (also after calls on other boxes), "
+            "vector/matrix-valued f(x) in Y with vector and matrix variables and applied functions, systems of 1-3 constraints (=,<=,<,>=,>) built through SystemFactory and contracted by "
+            "CtcHC4 (ratio, incremental), Ctc3BCid (s3b, scid, vhandled, var_min_width), CtcAcid (ct_ratio), CtcCompo, with and without an explicit impact context, 6 calls per object; "
+            "per call: contraction check, 11 sample points (planted point, just outside the contracted bounds, removed slabs) decided feasible/infeasible exactly; "
+            "non-trivial = a feasible point was tested, or the box was contracted, or the model box was compared",
+    "assumptions": ["the HC4 model covers scalar DAGs over var const + - * / minus sqr sqrt abs max min sign pow(1,2); other operators only through exact point sampling",
+                    "CtcNewton is exercised under C09"],
+    "trusted": ["expr_io.h dumper", "exact rational evaluation of the user-level expression in the driver (Alg.rat, proved equal to the real semantics: rat_root_real in C02)"],
+    "technique": "Lean 4 proof (abstract contractor theory: any schedule / shaving of sound contractors is sound; acceptance rules) + model HC4Revise compared (impl box must contain model box) + exact point feasibility oracle",
+    "level_text": "Kernel-checked: any finite schedule of sound, contracting sub-contractors (propagation with any agenda/ratio/impact) is sound and contracting; the hull of contracted slices covering the box (3BCID/ACID for any parameters) keeps every feasible point; accepted run-time checks mean what they say. Run time: every output box is inside its input, every exactly-feasible sample point survives, and the real CtcFwdBwd output contains the tightest single-pass HC4 box of the Lean model (identical on >99% of the cases).",
+    "level_note": "Trusted: Lean kernel + Mathlib (axioms propext/Classical.choice/Quot.sound); harness/driver glue; sampled correspondence. A genuine defect found through this check (chi simplification, fixed 55600f68).",
+}
